@@ -10,6 +10,7 @@
 mod dump;
 mod edwards;
 mod foreign;
+mod keycmp;
 mod native;
 mod zkirfam;
 
@@ -18,6 +19,10 @@ use std::collections::BTreeMap;
 use midnight_curves::Fq as F;
 use midnight_proofs::dev::MockProver;
 use serde_json::{json, Value as J};
+
+fn want_keygen() -> bool {
+    std::env::args().any(|a| a == "keygen=1")
+}
 
 fn parse_args() -> (String, native::Spec, u32, Option<String>) {
     let args: Vec<String> = std::env::args().collect();
@@ -32,6 +37,7 @@ fn parse_args() -> (String, native::Spec, u32, Option<String>) {
             "k" => k = val.parse().unwrap(),
             "in" => spec.ins = val.split(':').filter(|x| !x.is_empty()).map(native::parse_big).collect(),
             "replay" => replay = Some(val.to_string()),
+            "keygen" => {}
             _ if key.starts_with("p.") => {
                 spec.params.insert(key[2..].to_string(), val.to_string());
             }
@@ -41,7 +47,7 @@ fn parse_args() -> (String, native::Spec, u32, Option<String>) {
     (family, spec, k, replay)
 }
 
-fn finish(prover: MockProver<F>, io: Vec<(bool, F)>, replay: Option<String>, extra: J) {
+fn finish(prover: MockProver<F>, io: Vec<(bool, F)>, replay: Option<String>, extra: J, keyview: J) {
     #[allow(unused_mut)]
     let mut prover = prover;
     if let Some(path) = replay {
@@ -81,6 +87,7 @@ fn finish(prover: MockProver<F>, io: Vec<(bool, F)>, replay: Option<String>, ext
     out["io"] = J::Array(iorows);
     out["honest_verify"] = J::Bool(verify_ok);
     out["extra"] = extra;
+    out["keygen"] = keyview;
     println!("{}", out);
 }
 
@@ -95,7 +102,8 @@ fn main() {
             let rec: Vec<(bool, F)> = io.0.borrow().clone();
             let pi: Vec<F> = rec.iter().map(|x| x.1).collect();
             let prover = MockProver::<F>::run(k, &circuit, vec![vec![], pi]).expect("synthesis (pass 2)");
-            finish(prover, rec, replay, json!({"family": "native", "op": spec.op, "params": spec.params}));
+            let kv = if want_keygen() { keycmp::keygen_view(k, &circuit).unwrap_or_else(|e| json!({"error": format!("{e:?}")})) } else { J::Null };
+            finish(prover, rec, replay, json!({"family": "native", "op": spec.op, "params": spec.params}), kv);
         }
         "foreign" => {
             use midnight_circuits::field::foreign::params::{FieldEmulationParams, MultiEmulationParams};
@@ -113,7 +121,8 @@ fn main() {
                         "log2_base": <MultiEmulationParams as FieldEmulationParams<F, $K>>::LOG2_BASE,
                         "nb_limbs": <MultiEmulationParams as FieldEmulationParams<F, $K>>::NB_LIMBS,
                         "moduli": moduli});
-                    finish(prover, rec, replay, extra);
+                    let kv = if want_keygen() { keycmp::keygen_view(k, &circuit).unwrap_or_else(|e| json!({"error": format!("{e:?}")})) } else { J::Null };
+                    finish(prover, rec, replay, extra, kv);
                 }};
             }
             match spec.params.get("field").map(|s| s.as_str()).unwrap_or("k256fp") {
@@ -132,7 +141,8 @@ fn main() {
             let rec: Vec<(bool, F)> = io.0.borrow().clone();
             let pi: Vec<F> = rec.iter().map(|x| x.1).collect();
             let prover = MockProver::<F>::run(k, &circuit, vec![vec![], pi]).expect("synthesis (pass 2)");
-            finish(prover, rec, replay, json!({"family": "edwards", "op": spec.op, "params": spec.params, "curve_d": edwards::curve_d_hex()}));
+            let kv = if want_keygen() { keycmp::keygen_view(k, &circuit).unwrap_or_else(|e| json!({"error": format!("{e:?}")})) } else { J::Null };
+            finish(prover, rec, replay, json!({"family": "edwards", "op": spec.op, "params": spec.params, "curve_d": edwards::curve_d_hex()}), kv);
         }
         "zkir" => {
             let path = spec.params.get("prog").expect("p.prog=<file>").clone();
@@ -141,7 +151,7 @@ fn main() {
             match zr.prover {
                 Some(prover) => {
                     let rec: Vec<(bool, F)> = zr.instance.iter().enumerate().map(|(i, v)| (i < nin, *v)).collect();
-                    finish(prover, rec, replay, extra);
+                    finish(prover, rec, replay, extra, zr.keyview.clone());
                 }
                 None => {
                     extra["no_circuit"] = J::Bool(true);
